@@ -103,6 +103,25 @@ let effective ~id (before : itree) (pb : ptree) (after : itree) (pa : ptree) : b
                 match solve (nat_of_int n) (List.map (fun (r, b) -> { coef = r; rhs = b; strict = true }) rs) with Sat _ -> true | _ -> false) terms) in
             let nt = List.length (List.filter (fun nd -> nd.leaf) after.nodes) in
             bump_by "regions_fulldim" lower; bump_by "regions_closed" upper; bump_by "terminals_after" nt;
+            (* count-mask (mirror of Pwl/ElimCount.v elim_count): the terminals after are exactly the terminals before
+               (same arena index) whose exact closed region is non-empty; thin regions may go either way *)
+            (let kept i = List.exists (fun nd -> nd.leaf && nd.idx = i) after.nodes in
+             let bad = List.filter_map (fun (i, rs) ->
+                 let i' = int_of_nat i in
+                 match empty_cert (nat_of_int n) rs with
+                 | Some false when not (kept i') ->
+                   if thin_cert (nat_of_int n) tau rs = Some true then (bump "count_mask_thin"; None)
+                   else Some (Printf.sprintf "terminal %d removed although its closed region is non-empty and not thin" i')
+                 | Some true when kept i' ->
+                   if empty_cert (nat_of_int n) (relax tau rs) = Some false then (bump "count_mask_thin"; None)
+                   else Some (Printf.sprintf "terminal %d kept although its closed region is empty by more than the tolerance" i')
+                 | _ -> None) terms in
+             let fresh_terms = List.filter (fun nd -> nd.leaf && not (List.exists (fun (i, _) -> int_of_nat i = nd.idx) terms)) after.nodes in
+             bump "count_mask_compared";
+             match bad, fresh_terms with
+             | [], [] -> bump "count_mask_agree"
+             | w :: _, _ -> result id "MIRROR" "count-mask" w
+             | [], nd :: _ -> result id "MIRROR" "count-mask" (Printf.sprintf "terminal %d of the result is not a terminal of the input" nd.idx));
             if lower <= nt && nt <= upper then true
             else (result id "VIOL" "region-count" (Printf.sprintf "terminals after elimination %d, full-dimensional regions %d, non-empty closed regions %d" nt lower upper); false))) in
     ok_regions && ok_single && ok_count
